@@ -20,14 +20,15 @@ def allj(lst, body, var='j'):
     return 'all(%s for %s in range(0, len(%s)))' % (body, var, lst)
 
 
-READY = ' and '.join([
-    'step >= 1',
-    allj(EXO, 'has(self.TimeSeries, %s[j][0]) and len(self.TimeSeries[%s[j][0]]) > step' % (EXO, EXO)),
-    allj(LAG, 'has(self.TimeSeries, %s[j][0]) and len(self.TimeSeries[%s[j][0]]) == step and '
-              'has(self.TimeSeries, %s[j][1]) and len(self.TimeSeries[%s[j][1]]) >= step' % (LAG, LAG, LAG, LAG)),
-    allj(ENDO, 'has(self.TimeSeries, %s[j][0]) and len(self.TimeSeries[%s[j][0]]) == step' % (ENDO, ENDO)),
-    allj(DEC, 'has(self.TimeSeries, %s[j][0]) and len(self.TimeSeries[%s[j][0]]) == step' % (DEC, DEC)),
-])
+READY_PARTS = [
+    ('step_positive', 'step >= 1'),
+    ('exogenous_reach_the_period', allj(EXO, 'has(self.TimeSeries, %s[j][0]) and len(self.TimeSeries[%s[j][0]]) > step' % (EXO, EXO))),
+    ('lagged_have_step_points', allj(LAG, 'has(self.TimeSeries, %s[j][0]) and len(self.TimeSeries[%s[j][0]]) == step' % (LAG, LAG))),
+    ('lag_sources_have_the_previous_point', allj(LAG, 'has(self.TimeSeries, %s[j][1]) and len(self.TimeSeries[%s[j][1]]) >= step' % (LAG, LAG))),
+    ('simultaneous_have_step_points', allj(ENDO, 'has(self.TimeSeries, %s[j][0]) and len(self.TimeSeries[%s[j][0]]) == step' % (ENDO, ENDO))),
+    ('decorative_have_step_points', allj(DEC, 'has(self.TimeSeries, %s[j][0]) and len(self.TimeSeries[%s[j][0]]) == step' % (DEC, DEC))),
+]
+READY = ' and '.join(e for _, e in READY_PARTS)
 
 # names of the four blocks are pairwise distinct; different names have different series objects; series are allocated
 DISTINCT = ' and '.join([
@@ -241,7 +242,7 @@ def solvestep_contract(name=None):
         float_mode='xreal',
         hints=HINTS,
         requires=[('not_tracing', 'not is_trace_step'), ('cap_nonneg', 'self.MaxIterations >= 0'),
-                  ('solver_ready', READY), ('names_and_series_distinct', DISTINCT),
+                  ] + [('ready_' + n_, e_) for n_, e_ in READY_PARTS] + [('names_and_series_distinct', DISTINCT),
                   ('tolerance_parameter_finite', 'is_none(self.ParameterErrorTolerance) or isfinite(get(self.ParameterErrorTolerance))')],
         ghost_after=[('err_toler = float(self.Parser.Err_Tolerance)', "_assume('isfinite(err_toler)')")] + GHOST,
         loops=LOOPS,
@@ -260,6 +261,30 @@ def solvestep_contract(name=None):
         ],
         # C11: only value errors (ConvergenceError is one) report arithmetic / convergence failure; NameError / other errors of the
         # user's expressions pass through; nothing is appended on any failure
+        raises=[RaisesSpec('ValueError', when='True', ensures=[INTACT]),
+                RaisesSpec('NameError', when='True', ensures=[INTACT]),
+                RaisesSpec('OtherError', when='True', ensures=[INTACT])],
+        only_raises=True,
+    )
+
+
+READY_NEXT = READY.replace('== step', '== step + 1').replace('>= step', '>= step + 1').replace('> step', '> step').replace('step + 1 + 1', 'step + 1').replace('step + 1 >= 1', 'step >= 1')
+
+
+def solvestep_wrapper_contract():
+    """SolveStep(step) for a solver that is not tracing: what SolveEquation and CalculateInitialSteadyState rely on"""
+    return fn(
+        'sfc_models.equation_solver.EquationSolver.SolveStep', name='sfc_models.equation_solver.EquationSolver.SolveStep[not traced]',
+        args=dict(self=Ref('EquationSolver'), step=INT),
+        float_mode='xreal',
+        requires=[('not_traced', 'is_none(self.TraceStep)'), ('cap_nonneg', 'self.MaxIterations >= 0'),
+                  ] + [('ready_' + n_, e_) for n_, e_ in READY_PARTS] + [('names_and_series_distinct', DISTINCT),
+                  ('tolerance_parameter_finite', 'is_none(self.ParameterErrorTolerance) or isfinite(get(self.ParameterErrorTolerance))')],
+        modifies=['len.X', 'el.X', 'tyof'],
+        ensures=[('other_lists_untouched', 'lists_unchanged_except_series_of(self) and old_lists_only_extended()'),
+                 ('no_dict_or_field_change', "heap_unchanged_except('tyof', 'len.X', 'el.X')"),
+                 ('one_point_per_simultaneous_and_lagged_series', KEPT),
+                 ('one_finite_point_per_decorative_series', allj(DEC, 'len(self.TimeSeries[%s[j][0]]) == step + 1 and isfinite(self.TimeSeries[%s[j][0]][step])' % (DEC, DEC)))],
         raises=[RaisesSpec('ValueError', when='True', ensures=[INTACT]),
                 RaisesSpec('NameError', when='True', ensures=[INTACT]),
                 RaisesSpec('OtherError', when='True', ensures=[INTACT])],
